@@ -85,6 +85,8 @@ func main() {
 		os.Exit(cmdReplay(os.Args[2:]))
 	case "gen":
 		os.Exit(cmdGen(os.Args[2:]))
+	case "digest":
+		os.Exit(cmdDigest(os.Args[2:]))
 	case "selftest":
 		os.Exit(cmdSelftest(os.Args[2:]))
 	default:
